@@ -779,6 +779,10 @@ func (dns *Msg) packBufferWithCompressionMap(buf []byte, compression compression
 		dh.Bits |= _CD
 	}
 
+	// The header counts are 16 bits wide: a longer section cannot be expressed.
+	if len(dns.Question) > 0xFFFF || len(dns.Answer) > 0xFFFF || len(dns.Ns) > 0xFFFF || len(dns.Extra) > 0xFFFF {
+		return nil, &Error{err: "too many records in a section"}
+	}
 	dh.Qdcount = uint16(len(dns.Question))
 	dh.Ancount = uint16(len(dns.Answer))
 	dh.Nscount = uint16(len(dns.Ns))
